@@ -44,16 +44,19 @@ pub fn check_sizes(report: &mut Report, log: &[Wire], nodes: &[SocketAddr], info
                     sig = "oversize-reply".to_owned();
                 }
                 Body::Reply(r) if !r.values.is_empty() => {
-                    let values_bytes: usize = r
-                        .values
-                        .iter()
-                        .map(|v| if v.is_ipv4() { 8 } else { 21 })
-                        .sum::<usize>();
-                    what = format!("get_peers reply with {} values", r.values.len());
-                    if w.data.len() - values_bytes <= MAX_DATAGRAM {
-                        sig = "C17-values-uncapped".to_owned();
-                    } else {
+                    let entry = |v: &SocketAddr| if v.is_ipv4() { 8 } else { 21 };
+                    let values_bytes: usize = r.values.iter().map(entry).sum::<usize>();
+                    let distinct: HashSet<&SocketAddr> = r.values.iter().collect();
+                    let distinct_bytes: usize = distinct.iter().map(|v| entry(v)).sum::<usize>();
+                    what = format!("get_peers reply with {} values ({} distinct)", r.values.len(), distinct.len());
+                    if w.data.len() - values_bytes > MAX_DATAGRAM {
                         sig = "oversize-reply-even-without-values".to_owned();
+                    } else if w.data.len() - (values_bytes - distinct_bytes) <= MAX_DATAGRAM {
+                        // the known finding is about many stored peers; a reply that would fit if
+                        // every peer were listed once is oversize for another reason
+                        sig = "oversize-reply-repeated-values".to_owned();
+                    } else {
+                        sig = "C17-values-uncapped".to_owned();
                     }
                 }
                 Body::Reply(r) => {
